@@ -33,19 +33,19 @@ func hScaleSmallN() int {
 }
 
 // hLongNative builds the element values of a long list. flavour 0: ints only (element i is the int i,
-// symbolic ints at 0, n/2, n-1); flavour 1: mixed kinds in a fixed rotation (int, string, float, bool, nil)
+// symbolic ints at 0, n/2, n-1); flavour 1 (and 3): mixed kinds in a fixed rotation (int, string, float, bool, nil)
 // with symbolic scalars at 0, n/2 and n-1; flavour 2: ints with a nested list at n/2 and a nested object at n-1.
 func hLongNative(n, flavour int) []any {
 	out := make([]any, n)
 	for i := 0; i < n; i++ {
 		switch {
-		case flavour == 1 && i%5 == 1:
+		case flavour%2 == 1 && i%5 == 1:
 			out[i] = "s"
-		case flavour == 1 && i%5 == 2:
+		case flavour%2 == 1 && i%5 == 2:
 			out[i] = float64(i) + 0.5
-		case flavour == 1 && i%5 == 3:
+		case flavour%2 == 1 && i%5 == 3:
 			out[i] = i%2 == 0
-		case flavour == 1 && i%5 == 4:
+		case flavour%2 == 1 && i%5 == 4:
 			out[i] = nil
 		default:
 			out[i] = i
@@ -56,6 +56,10 @@ func hLongNative(n, flavour int) []any {
 		out[0], out[n/2], out[n-1] = nondetInt(), nondetInt(), nondetInt()
 	case 1:
 		out[0], out[n/2], out[n-1] = nondetInt(), hBytesStr(1), hFiniteFloat()
+	case 3: // as 1, the string being one arbitrary ASCII byte (valid UTF-8; controls, quote and backslash included)
+		c := nondetByte()
+		verifAssume(c < 0x80)
+		out[0], out[n/2], out[n-1] = nondetInt(), string([]byte{c}), hFiniteFloat()
 	default:
 		out[0] = nondetInt()
 		out[n/2] = NewList(nondetInt(), "x")
@@ -534,5 +538,179 @@ func H_C15_scale_async() {
 	verifAssert(hExact(hSnapNative(vals), hSnapNative(got)), "each index of a long list is paired with its own element")
 	verifAssert(verifRaces() == 0, "no data race in the async call over a long list")
 	verifAssert(hExact(hSnapNative(vals), hSnapList(l, true)), "the async call does not modify a long list")
+	verifReach("end")
+}
+
+// ---- C03 / C04: deeply nested and long documents ----
+// (C01, C02 and C16 have no scale harness: serialising and re-reading a long list with symbolic numbers forks over
+// every digit count, and the reference layout oracle is quadratic; both ran past the quick budget)
+
+// hDeep nests x under depth containers, lists and objects alternating (objects under the key "k").
+func hDeep(depth int, x any) any {
+	v := x
+	for d := 0; d < depth; d++ {
+		if d%2 == 0 {
+			v = NewList(v)
+		} else {
+			v = NewObject("k", v)
+		}
+	}
+	return v
+}
+
+func hScaleDepth() int {
+	ds := []int{31, 65, 129}
+	if verifTier() > 0 {
+		ds = []int{17, 33, 65, 127, 129, 255, 257, 513, 1025}
+	}
+	d := ds[nondetIntRange(0, len(ds)-1)]
+	verifBound("UNWIND", 8*d+64)
+	verifBound("SCALE_MAXDEPTH", ds[len(ds)-1])
+	return d
+}
+
+func hScaleParse(isList bool, s string) (any, error) {
+	if isList {
+		l, err := ParseList(s)
+		if err != nil {
+			return nil, err
+		}
+		return l, nil
+	}
+	o, err := ParseObject(s)
+	if err != nil {
+		return nil, err
+	}
+	return o, nil
+}
+
+
+
+func H_C03_scale_deep_documents() {
+	refDeep = 1 << 20
+	defer func() { refDeep = 0 }()
+	d := hScaleDepth()
+	x := nondetByte()
+	verifAssume(verifAnd(x >= '0', x <= '9'))
+	b := make([]byte, 0, 16*d)
+	for i := d - 1; i >= 0; i-- {
+		if i%2 == 0 {
+			b = append(b, '[')
+		} else {
+			b = append(b, '{', '"', 'k', '"', ':')
+		}
+	}
+	b = append(b, x)
+	for i := 0; i < d; i++ {
+		if i%2 == 0 {
+			b = append(b, ']')
+		} else {
+			b = append(b, '}')
+		}
+	}
+	doc := string(b)
+	got, err := hScaleParse((d-1)%2 == 0, doc)
+	verifAssert(err == nil, "a deeply nested valid document is accepted")
+	if err == nil {
+		want, ok := refParse(doc)
+		verifAssert(ok && hExact(want, hSnapAny(got)), "a deeply nested document is read as the reference decoder reads it")
+	}
+	// the same document cut anywhere in its closing run is rejected (C04)
+	cut := len(doc) - 1 - nondetIntRange(0, 2)*(d/3)
+	_, err = hScaleParse((d-1)%2 == 0, doc[:cut])
+	verifAssert(err != nil, "a deeply nested document cut inside its closing brackets is rejected")
+	verifReach("end")
+}
+
+func H_C04_scale_prefixes_of_long_documents() {
+	refDeep = 1 << 20
+	defer func() { refDeep = 0 }()
+	n := []int{33, 65}[nondetIntRange(0, 1)]
+	verifBound("UNWIND", 64*n)
+	verifBound("SCALE_PREFIX_MAXLEN", 65)
+	l, _ := hLongList(n, 3)
+	l.Replace(0, 7).Replace(n/2, "m").Replace(n-1, NewObject("k", NewList(1.5, nil)))
+	doc := l.String()
+	bad := false
+	for cut := 0; cut < len(doc); cut++ {
+		got, err := ParseList(doc[:cut])
+		if err == nil || got != nil {
+			bad = true
+		}
+	}
+	verifAssert(!bad, "every proper prefix of the serialised form of a long list is rejected")
+	// one symbolic byte overwritten somewhere: a total, either-or, repeatable outcome; a valid text is read as the
+	// reference decoder reads it; a stray byte of 0x80 and above is ill-formed UTF-8 and must be rejected
+	c := nondetByte()
+	p := []int{1, len(doc) / 2, len(doc) - 2}[nondetIntRange(0, 2)]
+	mut := doc[:p] + string([]byte{c}) + doc[p+1:]
+	var got, again List
+	var err, err2 error
+	panicked := verifCatch(func() {
+		got, err = ParseList(mut)
+		again, err2 = ParseList(mut)
+	})
+	verifAssert(!panicked, "parsing a long document with one byte overwritten does not panic")
+	if !panicked {
+		verifAssert((got != nil) == (err == nil), "the outcome is a container or an error, never both or neither")
+		verifAssert((err == nil) == (err2 == nil), "the same input gives the same outcome")
+		if err == nil && err2 == nil && got != nil && again != nil {
+			verifAssert(hExact(hSnapAny(got), hSnapAny(again)), "the same input gives the same tree")
+		}
+		want, ok := refParse(mut)
+		if ok {
+			verifAssert(err == nil, "a long document that is still valid JSON is accepted")
+			if err == nil && got != nil {
+				verifAssert(hRefEqNum(hSnapAny(got), want), "… and read as the reference decoder reads it")
+			}
+		}
+		if c >= 0x80 {
+			verifAssert(err != nil, "a stray byte of 0x80 or above inside a long document is rejected")
+		}
+	}
+	verifReach("end")
+}
+
+
+// ---- C06: objects with many fields ----
+
+func H_C06_scale_many_fields() {
+	n := hScaleSmallN()
+	o := NewObject()
+	for i := 0; i < n; i++ {
+		o.Set(hScaleKey(i), i)
+	}
+	x := nondetInt()
+	p := []int{0, n / 2, n - 1}[nondetIntRange(0, 2)]
+	switch nondetIntRange(0, 2) {
+	case 0:
+		o.Set(hScaleKey(p), x)
+		verifAssert(o.Count() == n && o.GetInt(hScaleKey(p)) == x, "Set over an existing key of a large object replaces that field only")
+	case 1:
+		o.Unset(hScaleKey(p))
+		verifAssert(o.Count() == n-1 && !o.KeyExists(hScaleKey(p)) && o.TypeOf(hScaleKey(p)) == TypeUndefined, "Unset removes exactly one field of a large object")
+	default:
+		o.Set("new", x)
+		verifAssert(o.Count() == n+1 && o.GetInt("new") == x, "Set of a new key adds one field to a large object")
+	}
+	ok := true
+	for i := 0; i < n; i++ {
+		if i != p {
+			ok = ok && o.KeyExists(hScaleKey(i)) && o.TypeOf(hScaleKey(i)) == TypeInt && o.GetInt(hScaleKey(i)) == i
+		}
+	}
+	verifAssert(ok, "every other field of a large object is untouched")
+	ks := o.Keys()
+	vs := o.Values()
+	verifAssert(ks.Count() == o.Count() && vs.Count() == o.Count(), "Keys and Values of a large object have one entry per field")
+	seen := make(map[string]int)
+	for i := 0; i < ks.Count(); i++ {
+		seen[ks.GetString(i)]++
+	}
+	dup := false
+	for k, c := range seen {
+		dup = dup || c != 1 || !o.KeyExists(k)
+	}
+	verifAssert(!dup && len(seen) == o.Count(), "Keys of a large object lists every key exactly once")
 	verifReach("end")
 }
